@@ -69,6 +69,13 @@ def _is_self_call(c: ast.Call, name: str | None = None) -> bool:
         and (name is None or f.attr == name)
 
 
+def _call_params(f: FuncInfo) -> list[str]:
+    """Parameters a call binds: without self/cls for ordinary methods, all of them for static methods,
+    closures and module functions."""
+    static = any(isinstance(d, ast.Name) and d.id == "staticmethod" for d in f.node.decorator_list)
+    return f.params[1:] if f.cls is not None and not static and f.outer is None else f.params
+
+
 def _spawn_name(c: ast.Call) -> str | None:
     """`….create_task(coro, …)` / `….ensure_future(coro)`: text of the spawning function."""
     f = c.func
@@ -217,7 +224,14 @@ class Roles:
         cand = [n for n in awaited if n in cls.methods and (n in writers or any(
             isinstance(c, ast.Call) and _is_self_call(c) and c.func.attr in writers  # type: ignore[union-attr]
             for c in ast.walk(cls.methods[n].node)))]
-        self.us = self._pick(prog, cand, "_update_streams")
+        self.us_inlined = False
+        try:
+            self.us = self._pick(prog, cand, "_update_streams")
+        except AnalysisError:
+            if self.am.name not in writers:
+                raise
+            # the registration is part of add_metric itself: the obligations are stated on its paths
+            self.us, self.us_inlined = self.am, True
         # hs: what the registered task runs
         hs_names = []
         for n in ast.walk(inline_helpers(prog, self.us)):
@@ -343,7 +357,7 @@ class Stream:
                     ps = target.params
                 elif _is_self_call(c) and hs.cls is not None:
                     target = prog.resolve_method(hs.cls, c.func.attr)  # type: ignore[union-attr]
-                    ps = target.params[1:] if target is not None else []
+                    ps = _call_params(target) if target is not None else []
                 if target is None:
                     continue
                 b = bind_call(c, ps)
@@ -461,7 +475,7 @@ def _value_helper(prog: Program, fn: FuncInfo, keep: set[str]):  # type: ignore[
             name = c.func.attr  # type: ignore[union-attr]
             m = prog.resolve_method(fn.cls, name)
             if m is not None and name.startswith("_") and not name.startswith("__") and name not in keep:
-                return m.node, m.params[1:]
+                return m.node, _call_params(m)
         elif isinstance(c.func, ast.Name) and c.func.id.startswith("_") and c.func.id in fn.module.functions and c.func.id not in keep:
             m = fn.module.functions[c.func.id]
             return m.node, m.params
@@ -590,6 +604,31 @@ def check_fan(run: Run, prog: Program, st: Stream) -> None:
               "every message is consumed and delivered to nobody", node=hs.node, file=hs.file, path=cfg.describe_path(wit))
 
 
+# ======================================================================================== the registration unit
+class Registration:
+    """Where the stream task of a component is (re)registered: the role of _update_streams, played by
+    a method of its own or by part of add_metric.  `k` is the text of the component key, `cat` of the category
+    the new task must be started with."""
+
+    def __init__(self, prog: Program, ro: Roles) -> None:
+        self.fn = ro.us
+        self.node = inline_helpers(prog, ro.us, exclude=ro.names)
+        self.x = x = Expander(self.node)
+        self.cfg = CFG(self.node, ro.us.file)
+        if not ro.us_inlined:
+            self.k, self.cat = ro.us.params[1], ro.us.params[2]
+        else:
+            # the component of the request: the key under which add_metric files the request
+            comps = set()
+            for n in ast.walk(self.node):
+                if isinstance(n, (ast.Subscript, ast.Call)):
+                    p = cpath(x.expand(n))
+                    if p is not None and p[0] == SUBS and len(p) >= 2:
+                        comps.add(p[1])
+            self.k = next(iter(comps)) if len(comps) == 1 else "<component of the request>"
+            self.cat = f"await self.{ro.lookup}({self.k})"
+
+
 # ======================================================================================== C20.ATOM
 def _normal(_a: int, _b: int, lab: str) -> bool:
     return not lab.startswith("exc:")
@@ -681,9 +720,8 @@ def check_atom(run: Run, prog: Program, st: Stream) -> None:
               path=cfg.describe_path(wit))
     us = st.ro.us
     run.analysed(us.qual)
-    node = inline_helpers(prog, us, exclude=st.ro.names)
-    x = Expander(node)
-    k = us.params[1]
+    reg = Registration(prog, st.ro)
+    node, x, k = reg.node, reg.x, reg.k
     cancels = calls_where(node, lambda c: isinstance(c.func, ast.Attribute) and c.func.attr == "cancel", nested=True)
     ok = len(cancels) == 1 and x.x(cancels[0].func.value) in (f"{TASKS}[{k}]", f"{TASKS}.get({k})")  # type: ignore[union-attr]
     run.check(ok, "C20.ATOM", us.qual, "only the component's stream task is cancelled",
@@ -788,7 +826,8 @@ def check_once(run: Run, prog: Program, st: Stream) -> None:
                   instance=f"{v.qual} :: registers the receiver it opens (create-once checked at the write)")
     # stream tasks: registered only by _update_streams (or a helper spliced into it)
     us = st.ro.us
-    us_node = inline_helpers(prog, us, exclude=st.ro.names)
+    reg = Registration(prog, st.ro)
+    us_node = reg.node
     writers = []
     for m in cls.methods.values():
         x = Expander(m.node)
@@ -808,9 +847,7 @@ def check_once(run: Run, prog: Program, st: Stream) -> None:
     run.check(ok, "C20.ONCE", us.qual, "comp_data_tasks[comp_id] written only in _update_streams",
               "stream tasks are registered elsewhere", node=writers[0][1] if writers else None,
               file=prog.module(SRC).rel)
-    cfg = CFG(us_node, us.file)
-    x = Expander(us_node)
-    k, cat_p = us.params[1], us.params[2]
+    cfg, x, k, cat_p = reg.cfg, reg.x, reg.k, reg.cat
     wr = [n.id for n in cfg.nodes if n.kind == "stmt" and any(
         isinstance(w, ast.Subscript) and x.x(w.value) == TASKS and x.x(w.slice) == k for w in node_writes(cfg, n.id))]
     cn = nodes_with_call(cfg, lambda c: isinstance(c.func, ast.Attribute) and c.func.attr == "cancel")
@@ -846,7 +883,7 @@ def check_once(run: Run, prog: Program, st: Stream) -> None:
                     inner = ast.Call(func=f.args[0], args=f.args[1:], keywords=f.keywords)
                 if inner is not None and _is_self_call(inner, st.hs.name):
                     b = bind_call(inner, st.hs.params[1:])
-                    ok = b is not None and set(b) == set(st.hs.params[1:]) and u(b[st.comp_p]) == k and u(b[st.cat_p]) == cat_p
+                    ok = b is not None and set(b) == set(st.hs.params[1:]) and x.x(b[st.comp_p]) == k and x.x(b[st.cat_p]) == cat_p
     run.check(ok, "C20.ONCE", us.qual, "new task = run_forever(_handle_data_stream(comp_id, category))",
               "the registered task does not stream this component", node=us.node, file=us.file)
     cr = st.ro.cr
@@ -1081,7 +1118,7 @@ def _find_scans(cfg: CFG, x: Expander, req: str, helpers: tuple[Program, FuncInf
             ps: list[str] = []
             if _is_self_call(call) and fn.cls is not None:
                 target = prog.resolve_method(fn.cls, call.func.attr)  # type: ignore[union-attr]
-                ps = target.params[1:] if target is not None else []
+                ps = _call_params(target) if target is not None else []
             elif isinstance(call.func, ast.Name) and call.func.id in fn.module.functions:
                 target = fn.module.functions[call.func.id]
                 ps = target.params
@@ -1149,7 +1186,11 @@ def check_dedup(run: Run, prog: Program, ro: Roles) -> None:
     run.check(ok, "C20.DEDUP", am.qual, "unknown component -> return before any state change",
               "a request for an unknown component changes the subscription state", node=am.node, file=am.file)
     apps = nodes_with_call(cfg, lambda c: isinstance(c.func, ast.Attribute) and c.func.attr == "append")
-    upd = [n for n in nodes_with_call(cfg, lambda c: _is_self_call(c, ro.us.name)) if cfg.is_await(n)]
+    if ro.us_inlined:
+        upd = [n.id for n in cfg.nodes if n.kind == "stmt" and any(
+            isinstance(w, ast.Subscript) and x.x(w.value) == TASKS for w in node_writes(cfg, n.id))]
+    else:
+        upd = [n for n in nodes_with_call(cfg, lambda c: _is_self_call(c, ro.us.name)) if cfg.is_await(n)]
     scans = _find_scans(cfg, x, req, helpers=(prog, am))
     ok = len(apps) == 1 and len(upd) == 1 and len(scans) == 1
     wit = None
@@ -1171,6 +1212,15 @@ def check_dedup(run: Run, prog: Program, ro: Roles) -> None:
             ok = len(a) == 1 and cpath(x.expand(a[0].func.value)) == sc.path and len(sc.path) == 3 \
                 and [x.x(v) for v in a[0].args] == [req] and not a[0].keywords  # type: ignore[union-attr]
         ok = ok and cfg.path(apps[0], upd) is not None and cfg.path(cfg.entry, upd, avoid=apps) is None
+        if ok and not ro.us_inlined:
+            # it is this request's component (with its category) whose stream is updated
+            uc = [c for part in own_parts(cfg.nodes[upd[0]]) for c in [part, *walk_own(part)]
+                  if isinstance(c, ast.Call) and _is_self_call(c, ro.us.name)]
+            b = bind_call(uc[0], ro.us.params[1:]) if len(uc) == 1 else None
+            ok = b is not None and set(b) == set(ro.us.params[1:]) and len(ro.us.params) == 3 \
+                and x.x(b[ro.us.params[1]]) == sc.path[1] and x.x(b[ro.us.params[2]]) == f"await self.{ro.lookup}({sc.path[1]})"
+        elif ok:
+            ok = Registration(prog, ro).k == sc.path[1]
     run.check(ok, "C20.DEDUP", am.qual, "scan for the same channel name, then append, then update streams",
               "an identical request is not ignored, or the scan-and-append is interruptible (an await between "
               "scan and append lets two identical requests both be appended)", node=am.node, file=am.file,
